@@ -9,11 +9,11 @@ MAPLEN = {"kind": "rule", "rule": "MAPLEN"}
 VERIFYMAP = {"kind": "rule", "rule": "VERIFYMAP"}
 FTS = {"kind": "err_before",
        "fn": "vibrato::dictionary::connector::raw_connector::RawConnectorBuilder::from_readers",
-       "local": "feat_template_size"}
+       "local": "feat_template_size",
+       "sink": {"callee": "RawConnectorBuilder::new", "arg": 2}}
 CATE = {"kind": "bound", "fn": "vibrato::dictionary::character::CharProperty::from_reader",
         "callee": "CharInfo::new", "arg": 1, "lt": 18}
-FEATLEN = {"kind": "assign_in_arm", "fn": "vibrato::dictionary::lexicon::Lexicon::parse_csv",
-           "switch_local": "field_cnt", "arm": 3, "local": "features_len", "value": 0}
+FEATLEN = {"kind": "rule", "rule": "FEATSPAN"}
 
 # (function substring, key regex, reason, guard)
 RULES = [
@@ -71,7 +71,7 @@ RULES = [
  ("Lexicon::parse_csv", r"assert:Overflow\|Add\(", "running totals of bytes/fields consumed from the input slice: bounded by its length", None),
  ("Lexicon::parse_csv", r"array::index\(_,agg\)", "nout <= output.len() is csv-core's read_field contract", None),
  ("Lexicon::parse_csv", r"index::index\(arg1,agg\)", "nin <= bytes.len() is csv-core's read_field contract", None),
- ("Lexicon::parse_csv", r"index::index\(var:&\[u8\],agg\)", "record_end_pos / features_len sum the nin of the fields read since record_bytes / features_bytes were set, so the ranges stay inside those slices; features_len is reset to 0 in the cost-column arm and therefore never counts bytes before features_bytes", FEATLEN),
+ ("Lexicon::parse_csv", r"index::index\(var:&\[u8\],agg\)", "record_end_pos / features_len sum the nin of the fields read since record_bytes / features_bytes were set, so the ranges stay inside those slices; the feature length only counts bytes consumed after the feature base was set (checked name-free by the FEATSPAN abstract interpretation)", FEATLEN),
  ("WordParams::get", r"index\(arg1\.params,arg2\)", "called from Lexicon::verify with the loop variable of 0..params.len() (tokenization-path callers are out of scope here)", None),
  ("ConnIdMapper::left", r"index\(arg1\.left", "ids handed to the mapper are < num_left: lexicon/unknown ids are verified in build() and, for a user lexicon, by verify() BEFORE map_connection_ids in reset_user_lexicon_from_reader (checked: VERIFYMAP); loop indices in the connectors; and the mapper's length equals the connector's (MAPLEN)", VERIFYMAP),
  ("ConnIdMapper::right", r"index\(arg1\.right", "as for left()", VERIFYMAP),
@@ -105,7 +105,8 @@ def main():
     entries.append({"key": "NARROW|vibrato::dictionary::unknown::UnkHandler::scan_entries|cast|usize->u16(next(_))|0",
                     "reason": "word_id < entries.len(), and UnkHandler::from_reader rejects more than 65536 entries",
                     "guard": {"kind": "len_le", "fn": "vibrato::dictionary::unknown::UnkHandler::from_reader",
-                              "local": "entries", "le": 65536}})
+                              "local": "entries", "le": 65536,
+                              "sink": {"adt": "UnkHandler", "field": "entries"}}})
     doc = {"_doc": "PANIC audit table: sites that no structural discharger covers, each with the "
                    "reason it cannot fire and, where safety rests on a check elsewhere, a guard "
                    "that is re-verified on every run. Generated by spec/gen_panic_table.py from the "
